@@ -164,6 +164,12 @@ pub struct Ctx {
     pub exhaustive: Vec<String>,
     pub required_labels: Vec<String>,
     pub journal: Option<String>,
+    /// configuration name mixed into the proptest seed (C16 replaces it by a constant so that
+    /// every configuration generates the same corpus)
+    pub seed_config: String,
+    pub out_path: Option<String>,
+    /// number of choice words the most recent `exec` consumed
+    pub last_used: usize,
     next_sample_at: u64,
     pub extra: BTreeMap<String, Json>,
 }
@@ -245,6 +251,9 @@ impl Ctx {
             exhaustive: Vec::new(),
             required_labels: Vec::new(),
             journal: None,
+            seed_config: config.to_string(),
+            out_path: None,
+            last_used: 0,
             next_sample_at: 0,
             extra: BTreeMap::new(),
         }
@@ -331,7 +340,8 @@ impl Ctx {
             self.write_journal(gen.name, words);
         }
         let mut obs = Obs::new(self.want_sample());
-        let (r, _) = run_gen(gen, words, &mut obs);
+        let (r, used) = run_gen(gen, words, &mut obs);
+        self.last_used = used;
         let fail = r.err();
         self.merge(gen.name, words, obs);
         if let Some(f) = &fail {
@@ -385,7 +395,7 @@ impl Ctx {
             let d = digest(&[
                 &self.seed.to_le_bytes(),
                 self.prop.as_bytes(),
-                self.config.as_bytes(),
+                self.seed_config.as_bytes(),
                 gen.name.as_bytes(),
                 &pfx,
                 &si.to_le_bytes(),
